@@ -345,7 +345,53 @@ _on_name = Contract(
     concrete_ensures=['result == TYPED'],
 )
 
-CONTRACTS = [_start_match, _fuzzy_match, _match, _complete, _complete_prop, _nws, _prefix_len, _param_eq,
+# ------------------------------------------------------------------ attribute sources of an instance
+_CV = 'self.get_annotated_class_object()'
+_SAF = 'SelfAttributeFilter(self, %s, c.as_context(), origin_scope)' % _CV
+_WRAP = ('((isinstance(f, ClassFilter) and InstanceClassFilter(self, f) in %(Y)s) or '
+         '(not isinstance(f, ClassFilter) and isinstance(f, CompiledValueFilter) and CompiledInstanceClassFilter(self, f) in %(Y)s) or '
+         '(not isinstance(f, ClassFilter) and not isinstance(f, CompiledValueFilter) and f in %(Y)s))')
+
+
+def _replay_instance_filters(inp):
+    """completion after an instance whose class (or a base) is not a plain class value: a dataclass, a class with a
+    subscripted generic base - attributes assigned through self in methods must still be offered"""
+    from pyvc.replay import run_real
+    import jedi
+    code = inp['code']
+    lines = code.split('\n')
+    out = run_real(lambda: sorted(c.name for c in jedi.Script(code).complete(len(lines), len(lines[-1]))
+                                  if c.name in inp['expect']))
+    return {'EXPECT': sorted(inp['expect'])}, out
+
+
+_instance_filters = Contract(
+    id='C04._BaseTreeInstance.get_filters', prop='C04',
+    clause='(f) attribute sources of an instance: for EVERY class of the MRO that is not a compiled object there is a '
+           'filter for the attributes assigned through self, and every filter of the class (body, bases, metaclass) is '
+           'passed on - none is dropped, whatever kind of class value the MRO entry is',
+    file='jedi/inference/value/instance.py', qualname='_BaseTreeInstance.get_filters',
+    params={'self': Obj('TInst'), 'origin_scope': ANY, 'include_self_names': BOOL},
+    families=['TInst', 'ClsV', 'FltX', 'CtxX'], yields=Obj('FltX'),
+    invariants={
+        0: ['all(implies(not c.is_compiled(), %s in YIELDED) for c in DONE)' % _SAF],
+        1: ['all(%s for f in DONE)' % (_WRAP % {'Y': 'YIELDED'}),
+            'implies(include_self_names, all(implies(not c.is_compiled(), %s in YIELDED) for c in %s.py__mro__()))' % (_SAF, _CV)],
+    },
+    ensures=['implies(include_self_names, all(implies(not c.is_compiled(), %s in result) for c in %s.py__mro__()))' % (_SAF, _CV),
+             'all(%s for f in %s.get_filters(origin_scope, True))' % (_WRAP % {'Y': 'result'}, _CV)],
+    witness={}, replay=_replay_instance_filters, concrete_only=True,
+    witness_library=[
+        {'code': 'class P:\n    def set(self):\n        self.norm = 1\np = P()\np.no', 'expect': ['norm']},
+        {'code': 'def deco(c):\n    return c\n@deco\nclass P:\n    def set(self):\n        self.norm = 1\np = P()\np.no',
+         'expect': ['norm']},
+        {'code': 'class B:\n    def s(self):\n        self.item = 1\nclass C(B):\n    def t(self):\n        self.sealed = 2\n'
+                 'c = C()\nc.', 'expect': ['item', 'sealed']},
+    ],
+    concrete_ensures=['result == EXPECT'],
+)
+
+CONTRACTS = [_instance_filters, _start_match, _fuzzy_match, _match, _complete, _complete_prop, _nws, _prefix_len, _param_eq,
              _filter_names, _on_name] + ORDER
 
 def _standin(repo, seed, tier):
@@ -366,6 +412,27 @@ TRUSTED = ['str.lower() modelled as an uninterpreted idempotent function (not le
 
 def register(reg):
     from pyvc.values import MNS, MFn
+    from pyvc.values import MCls as _MC
+    _F = Obj('FltX')
+    reg.add_family(Family('TInst', methods={'get_annotated_class_object': FnSpec(
+        'TreeInstance.get_annotated_class_object', ret=Obj('ClsV'), pure=True, assumed=True)}))
+    reg.add_family(Family('CtxX'))
+    reg.add_family(Family('FltX'))
+    reg.add_family(Family('ClsV', methods={
+        'py__mro__': FnSpec('ClassValue.py__mro__', ret=Seq(Obj('ClsV')), pure=True, assumed=True),
+        'is_compiled': FnSpec('Value.is_compiled', ret=BOOL, pure=True),
+        'as_context': FnSpec('Value.as_context', ret=Obj('CtxX'), pure=True),
+        'get_filters': FnSpec('ClassValue.get_filters', params=[('origin_scope', ANY), ('is_instance', BOOL)],
+                              defaults={'origin_scope': None, 'is_instance': False}, ret=Seq(_F), pure=True, assumed=True)}))
+    reg.names['SelfAttributeFilter'] = FnSpec('SelfAttributeFilter', params=[('instance', Obj('TInst')), ('instance_class', Obj('ClsV')),
+                                                                            ('node_context', Obj('CtxX')), ('origin_scope', ANY)],
+                                              ret=_F, pure=True, assumed=True)
+    reg.names['InstanceClassFilter'] = FnSpec('InstanceClassFilter', params=[('instance', Obj('TInst')), ('class_filter', _F)],
+                                              ret=_F, pure=True, assumed=True)
+    reg.names['CompiledInstanceClassFilter'] = FnSpec('CompiledInstanceClassFilter', params=[('instance', Obj('TInst')), ('f', _F)],
+                                                      ret=_F, pure=True, assumed=True)
+    reg.names['ClassFilter'] = _MC('ClassFilter')
+    reg.names['CompiledValueFilter'] = _MC('CompiledValueFilter')
     reg.add_family(Family('Match04', methods={'group': FnSpec('Match.group', params=[('n', INT)], ret=STR, pure=True,
                                                               assumed=True)}))
     reg.names['re'] = MNS('re', {'search': MFn('spec', 're.search', spec=FnSpec(
